@@ -33,10 +33,52 @@ static int aln_runner(struct aln_mem *m);
 static struct { const uint8_t *seq1, *seq2; const float *prof1, *prof2; int len_a, len_b, sip, calls; } rec;
 static int vb = 0;
 
+static struct msa *g_msa; static float **g_prof;
+static void check_operands(void)
+{
+        struct msa *msa = g_msa;
+        VK_ASSERT(rec.calls == 1, "C07: exactly one DP per merge");
+        if (VK_GA == 1 && VK_GB == 1) {
+                VK_ASSERT(rec.prof1 == NULL && rec.prof2 == NULL && rec.len_a <= rec.len_b, "C07: sequence-sequence DP gets the shorter sequence first");
+                VK_ASSERT((rec.seq1 == msa->sequences[0]->s && rec.seq2 == msa->sequences[1]->s && rec.len_a == VK_LENA && rec.len_b == VK_LENB) ||
+                          (rec.seq1 == msa->sequences[1]->s && rec.seq2 == msa->sequences[0]->s && rec.len_a == VK_LENB && rec.len_b == VK_LENA), "C07: the two sequences of this merge are aligned");
+        } else if (VK_GA > 1 && VK_GB > 1) {
+                VK_ASSERT(rec.seq1 == NULL && rec.seq2 == NULL && rec.prof1 != NULL && rec.prof2 != NULL && rec.len_a <= rec.len_b, "C07: profile-profile DP gets the shorter profile first");
+        } else {
+                VK_ASSERT(rec.seq1 == NULL && rec.prof2 == NULL && rec.prof1 != NULL && rec.seq2 != NULL, "C07: sequence-profile DP gets the profile and the sequence");
+                VK_ASSERT(rec.sip == (VK_GA > 1 ? VK_GA : VK_GB), "C07: profile group size handed to the DP");
+        }
+        /* the profiles handed to the DP carry gap entries scaled by the size of the OTHER operand (set_gap_penalties_n) */
+        for (int side = 0; side < 2; side++) {
+                const float *p = side == 0 ? rec.prof1 : rec.prof2;
+                if (p == NULL) continue;
+                VK_ASSERT(p == g_prof[A_ID] || p == g_prof[B_ID], "C07: a profile handed to the DP is the stored profile of one of the two nodes");
+                int other = (p == g_prof[A_ID]) ? VK_GB : VK_GA;
+                int len = side == 0 ? rec.len_a : rec.len_b;
+                for (int c = 0; c <= 4; c++) if (c <= len + 1) for (int e = 0; e < 3; e++) {
+                        float stored = p[64 * c + 55 + e];
+                        VK_ASSERT(stored != stored || p[64 * c + 27 + e] == stored * (float)other, "C07/C09: gap entries of a profile = its stored penalties times the size of the other operand");
+                }
+        }
+}
+
 static int aln_runner(struct aln_mem *m)
 {
         rec.seq1 = m->seq1; rec.seq2 = m->seq2; rec.prof1 = m->prof1; rec.prof2 = m->prof2;
         rec.len_a = m->len_a; rec.len_b = m->len_b; rec.sip = m->sip; rec.calls++;
+#ifdef VK_OPERANDS_ONLY
+        /* operand hand-over instances: everything do_align does AFTER the DP call (profile update, weaving) is cut - the
+         * operand assertions are made here and the path ends (do_align ignores the DP's return value, so failing is no cut) */
+        check_operands();
+#ifndef VK_NO_WITNESS
+        __CPROVER_assert(0, "VK_WITNESS reachability witness (must fail)");
+#endif
+#ifdef VK_NATIVE
+        printf("VK: harness finished, all assertions held\n"); exit(0);
+#else
+        __CPROVER_assume(0);
+#endif
+#endif
         /* the path for the problem (len_a x len_b) it was handed: concrete per instance (VK_PATH_INIT), every valid path
          * being enumerated by the driver - a symbolic path length would make the size of the output profile symbolic */
         static const int P[] = VK_PATH_INIT;
@@ -108,6 +150,7 @@ VK_MAIN()
         m->ap = &ap; m->mode = ALN_MODE_FULL;
         int by_gaps_before = msa->sequences[NLEAF - 1]->gaps[0];
 
+        g_msa = msa; g_prof = prof;
         int rc = do_align(msa, &tk, m, 0);
 
         VK_ASSERT(rc == OK, "C01/C10: the merge step succeeds (its result is not checked by the caller, so a failure here is silent)");
